@@ -15,7 +15,7 @@ export GOFLAGS=-mod=mod GOPROXY=off GOSUMDB=off GOTOOLCHAIN=local
 if ! go build ./... 2>"$wt.build.log"; then echo "MUTANT DOES NOT COMPILE"; head "$wt.build.log"; rm -f "$wt.build.log"; exit 2; fi
 rm -f "$wt.build.log"
 for p in "$@"; do
-  out=$(cd /verif && VERIF_REPO="$wt" VERIF_NO_EVIDENCE=1 VERIF_REPLAY_DIR=/tmp/verif-mutant-replays ./check "$p" quick 2>&1)
+  out=$(cd ${VERIF_DIR:-/verif} && VERIF_REPO="$wt" VERIF_NO_EVIDENCE=1 VERIF_REPLAY_DIR=/tmp/verif-mutant-replays ./check "$p" quick 2>&1)
   rc=$?
   if [ $rc -eq 1 ]; then echo "KILLED   $p by $(basename $patch): $(echo "$out" | grep -m1 'check=' | cut -c1-200)";
   elif [ $rc -eq 0 ]; then echo "SURVIVED $p vs $(basename $patch)";
